@@ -61,3 +61,7 @@ func (m ReportMsgWithKey) VerifMsg() *types.MsgReportData { return m.msg }
 func VerifLogger() *Logger {
 	return &Logger{logger: log.NewNopLogger()}
 }
+
+// VerifMarkPending records a request as found pending at start-up, as runImpl does before it starts
+// `go handleRequest` for it.
+func VerifMarkPending(c *Context, id types.RequestID) { c.pendingRequests[id] = true }
